@@ -346,7 +346,7 @@ func run(c *vk.Ctx) {
 		return
 	}
 
-	batches := c.Pick(16, 200)
+	batches := c.Pick(16, 140)
 	perBatch := c.Pick(1250, 2000)
 	if v := os.Getenv("VERIF_C19_BATCHES"); v != "" {
 		fmt.Sscanf(v, "%d", &batches)
